@@ -462,12 +462,30 @@ def side_pairs(fn_node, callee_names):
     a side comes from a `_1`/`_2` suffixed name, directly or through loop variables iterating over such names
     (including the tuple-of-pairs idiom)."""
     out = []
+    # side of a local = the side of the parameters (named *_1 / *_2 by the rule's interface) it is computed from
+    local_sides = {}
+    params = set()
+    if hasattr(fn_node, "args"):
+        params = {a.arg for a in fn_node.args.posonlyargs + fn_node.args.args + fn_node.args.kwonlyargs}
+    for _round in range(3):
+        for n in ast.walk(fn_node):
+            if isinstance(n, ast.Assign) and len(n.targets) == 1:
+                tnames = [x.id for x in ast.walk(n.targets[0]) if isinstance(x, ast.Name)]
+                srcs = set()
+                for x in ast.walk(n.value):
+                    if isinstance(x, ast.Name):
+                        sd = (_side(x.id) if x.id in params else None) or local_sides.get(x.id)
+                        if sd:
+                            srcs.add(sd)
+                if len(srcs) == 1:
+                    for t in tnames:
+                        local_sides.setdefault(t, next(iter(srcs)))
 
     def arg_side(a, env):
         if isinstance(a, ast.Name):
             if a.id in env:
                 return env[a.id]
-            return _side(a.id)
+            return local_sides.get(a.id) or _side(a.id)
         if isinstance(a, ast.Call) and a.args:
             # _at(fragment_2, i), enumerate(x), deduplicate(x): side of the first argument
             return arg_side(a.args[0], env)
